@@ -295,13 +295,28 @@ theorem invA_setTopic (s : St) (x : Cid) (t : Option (List Addr)) (h : InvA s) (
   · exact ht
   · exact h4 y
 
-theorem invA_putSub (s : St) (p : ObjId) (x : Cid) (ev : Option Bool) (h : InvA s) : InvA (putSub s p x ev) := by
+theorem invA_dropEvent (c : Cfg) (s : St) (a : Addr) (x : Cid) (h : InvA s) : InvA (dropEvent c s a x) := by
+  have h0 := h
+  obtain ⟨h1, h2, h3, h4, h5, h6⟩ := h
+  simp only [dropEvent]
+  split
+  · split
+    · exact h0
+    · rename_i q hq
+      have hq' := h1 _ _ hq
+      constructor <;> simp only [upd_apply] <;> grind [adel]
+  · exact h0
+
+theorem invA_unsubSt (s : St) (p : ObjId) (x : Cid) (h : InvA s) : InvA (unsubSt s p x) := by
+  have := invA_updGhost s p { s.obj p with since := upd (s.obj p).since x false } h rfl rfl rfl rfl rfl (h.last_le p)
+  exact invA_setTopic _ _ _ this (subDel_ne_nil _ _)
+
+theorem invA_putSub (c : Cfg) (s : St) (p : ObjId) (x : Cid) (ev : Option Bool) (h : InvA s) : InvA (putSub c s p x ev) := by
   simp only [putSub]
   split
   · exact h
   · exact invA_setTopic _ _ _ h (subAdd_ne_nil _ _ (h.topics_ne x))
-  · have := invA_updGhost s p { s.obj p with since := upd (s.obj p).since x false } h rfl rfl rfl rfl rfl (h.last_le p)
-    exact invA_setTopic _ _ _ this (subDel_ne_nil _ _)
+  · exact invA_dropEvent c _ _ x (invA_unsubSt s p x h)
 
 theorem invA_putVal (c : Cfg) (s : St) (p : ObjId) (x : Cid) (v : Val) (h : InvA s) : InvA (putVal c s p x v) := by
   simp only [putVal]
@@ -312,8 +327,8 @@ theorem invA_putChars (c : Cfg) (s : St) (p : ObjId) (x : Cid) (ev : Option Bool
     InvA (putChars c s p x ev val) := by
   simp only [putChars]
   split
-  · exact invA_putSub _ _ _ _ h
-  · exact invA_putVal _ _ _ _ _ (invA_putSub _ _ _ _ h)
+  · exact invA_putSub _ _ _ _ _ h
+  · exact invA_putVal _ _ _ _ _ (invA_putSub _ _ _ _ _ h)
 
 theorem invA_setPrepared (s : St) (f : Addr → Option (List Pid)) (h : InvA s) : InvA { s with prepared := f } := by
   obtain ⟨h1, h2, h3, h4, h5, h6⟩ := h
@@ -553,7 +568,15 @@ theorem rel_discardStale (c : Cfg) (s : St) (a : Addr) (x : Cid) : Rel none s (d
         · exact Rel.refl _ _
   · exact Rel.refl _ _
 
-theorem rel_putSub (s : St) (p : ObjId) (x : Cid) (ev : Option Bool) : Rel (some (s.obj p).addr) s (putSub s p x ev) := by
+theorem rel_dropEvent (c : Cfg) (s : St) (a : Addr) (x : Cid) : Rel none s (dropEvent c s a x) := by
+  simp only [dropEvent]
+  split
+  · split
+    · exact Rel.refl _ _
+    · exact rel_updObj s _ _ rfl rfl (fun h => h) (Or.inl rfl)
+  · exact Rel.refl _ _
+
+theorem rel_putSub (c : Cfg) (s : St) (p : ObjId) (x : Cid) (ev : Option Bool) : Rel (some (s.obj p).addr) s (putSub c s p x ev) := by
   simp only [putSub]
   split
   · exact Rel.refl _ _
@@ -566,7 +589,9 @@ theorem rel_putSub (s : St) (p : ObjId) (x : Cid) (ev : Option Bool) : Rel (some
       have : a ≠ (s.obj p).addr := fun e => ha (by rw [e])
       simpa [this] using hm
     · exact hm
-  · refine ⟨rfl, rfl, fun q => ?_, fun q => ?_, fun q h => ?_, fun q => ?_, fun q h => ?_, ?_, fun _ _ h => h⟩
+  · refine Rel.trans ?_ (Rel.weaken (rel_dropEvent c _ _ x))
+    simp only [unsubSt]
+    refine ⟨rfl, rfl, fun q => ?_, fun q => ?_, fun q h => ?_, fun q => ?_, fun q h => ?_, ?_, fun _ _ h => h⟩
     · simp only [upd_apply]; split <;> simp_all
     · simp only [upd_apply]; split <;> simp_all
     · simp only [upd_apply]; split <;> simp_all
@@ -589,8 +614,8 @@ theorem rel_putChars (c : Cfg) (s : St) (p : ObjId) (x : Cid) (ev : Option Bool)
     Rel (some (s.obj p).addr) s (putChars c s p x ev val) := by
   simp only [putChars]
   split
-  · exact rel_putSub s p x ev
-  · exact Rel.trans (rel_putSub s p x ev) (Rel.weaken (rel_putVal c _ p x _))
+  · exact rel_putSub c s p x ev
+  · exact Rel.trans (rel_putSub c s p x ev) (Rel.weaken (rel_putVal c _ p x _))
 
 /-- the address a request on `p` may add subscriptions / prepared writes for: its own, and only
     when it holds a verified session -/
@@ -1375,17 +1400,24 @@ theorem invQ_discardStale (c : Cfg) (s : St) (a : Addr) (x : Cid) (h : InvQ c s)
 
 theorem invQ_putChars (c : Cfg) (s : St) (p : ObjId) (x : Cid) (ev : Option Bool) (val : Option Val) (h : InvQ c s) :
     InvQ c (putChars c s p x ev val) := by
-  have h1 : InvQ c (putSub s p x ev) := by
+  have h1 : InvQ c (putSub c s p x ev) := by
     simp only [putSub]; split
     · exact h
     · exact h
-    · exact invQ_updObj c { s with topics := _ } p _ h (qok_same c (s.obj p) _ (h p) rfl rfl rfl (Nat.le_refl _))
+    · have hu : InvQ c (unsubSt s p x) :=
+        invQ_updObj c { s with topics := _ } p _ h (qok_same c (s.obj p) _ (h p) rfl rfl rfl (Nat.le_refl _))
+      simp only [dropEvent]
+      split
+      · split
+        · exact hu
+        · exact invQ_updObj c _ _ _ hu (qok_adel c _ x (hu _))
+      · exact hu
   simp only [putChars]
   split
   · exact h1
   · rename_i v
     simp only [putVal]
-    have h5 := invQ_discardStale c _ ((putSub s p x ev).obj p).addr x (invQ_writeVal c (putSub s p x ev) x v (some ((putSub s p x ev).obj p).addr) h1)
+    have h5 := invQ_discardStale c _ ((putSub c s p x ev).obj p).addr x (invQ_writeVal c (putSub c s p x ev) x v (some ((putSub c s p x ev).obj p).addr) h1)
     exact invQ_updObj c _ p _ h5 (qok_same c _ _ (h5 p) rfl rfl rfl (Nat.le_refl _))
 
 theorem invQ_onReq (c : Cfg) (s : St) (p : ObjId) (r : Req) (h : InvQ c s) : InvQ c (onReq c s p r).1 := by
